@@ -15,4 +15,6 @@ rm -rf evidence; cp -r .cache/evidence.bak evidence 2>/dev/null
 python3 tools/gen_consts.py /repo >/dev/null
 python3 tools/rs2lean.py /repo >/dev/null
 python3 tools/ser2lean.py /repo >/dev/null
+python3 tools/acc2lean.py /repo >/dev/null
+python3 tools/nfa2lean.py /repo >/dev/null
 (cd lean && lake build driver >/dev/null 2>&1)
